@@ -59,7 +59,10 @@ def main():
             continue
         if props and not a.names and not (set(props) & set(m[4])):
             continue
-        r = run_one(m, [p for p in (props or m[4])], a.tier)
+        use = props or m[4]
+        if props and not a.names:
+            use = [p for p in props if p in m[4]]
+        r = run_one(m, use, a.tier)
         out.append(r)
         if "error" in r:
             print(f"{r['name']:45s} ERROR {r['error']}")
